@@ -108,9 +108,10 @@ Definition visible_methods (allow : list string) (internal : bool) (methods : li
 
 (* Package layout.  Validation is lazy: it runs when a per-service template evaluates api.all_method_settings, and each
    service is rendered with the API *view* of the proto sub-package that owns it (API.subpackages; the top-level view
-   for services declared directly in the generated package).  A view's API.all_methods holds the methods of the
-   services whose sub-package path starts with the view's path: the top-level view sees everything, a sub-package
-   view sees its own subtree only.  Generation succeeds when every evaluated view accepts. *)
+   for services declared directly in the generated package).  A view's own API.all_methods holds only the methods of
+   its sub-package subtree, but enforce_valid_method_settings looks selectors and request messages up in the
+   top-level view (whole_api = dataclasses.replace(self, subpackage_view=())), so EVERY view validates against the
+   methods of the whole API.  Generation succeeds when every evaluated view accepts. *)
 Record lmethod := mkLMethod { lm_sub : list string; lm_desc : mdesc }.
 
 Fixpoint is_prefix (p l : list string) : bool :=
@@ -121,7 +122,10 @@ Fixpoint is_prefix (p l : list string) : bool :=
   end.
 
 Definition full_table (ms : list lmethod) : list mdesc := map lm_desc ms.
-Definition view_table (view : list string) (ms : list lmethod) : list mdesc :=
+(* the table a view validates against: the whole API, whatever the view *)
+Definition view_table (view : list string) (ms : list lmethod) : list mdesc := full_table ms.
+(* (for reference) the methods a view holds itself: its own subtree *)
+Definition own_methods (view : list string) (ms : list lmethod) : list mdesc :=
   map lm_desc (filter (fun m => is_prefix view (lm_sub m)) ms).
 
 (* the views that get evaluated: one per sub-package path owning a service (duplicates are harmless) *)
